@@ -439,5 +439,44 @@ def rule_g(ctx):
     return r
 
 
-RULES = [rule_a, rule_b, rule_c, rule_d, rule_e, rule_f, rule_g]
+
+def rule_h(ctx):
+    r = RuleResult("C12-h", "`@forward ... with`: the entries checked by assert_configuration_is_empty are protected for *all* names of the rule's own `with` clause, "
+                   "guarded (!default) ones included, while only the unguarded names are exempt from remove_used_configuration (two different sets)")
+    prog = ctx.prog()
+    v = prog.one("evaluate::visitor::Visitor::visit_forward_rule")
+    ruc = [c for c in v.calls() if (c.name() or "").endswith("Visitor::remove_used_configuration")]
+    cont = [c for c in v.calls() if an.tail2(c.callee) == "HashSet::contains" and c.fn_args and "common::Identifier" in c.fn_args[0]]
+    if len(ruc) != 1 or not cont:
+        raise AnchorMissing("visit_forward_rule: remove_used_configuration / configured-names membership test not found (%d / %d)" % (len(ruc), len(cont)))
+
+    def source_type(op):
+        ap = an.trace_operand(v, op, through_calls=False)
+        g = 0
+        while ap.root[0] == "call" and g < 4:
+            c = v.call_at(ap.root[2])
+            if an.tail2(c.callee) == "Iterator::collect":
+                return c.fn_args[0] if c.fn_args else ""
+            ap = an.trace_operand(v, c.args[0], through_calls=False) if c.args else ap
+            g += 1
+        return None
+
+    exc = source_type(ruc[0].args[2])
+    key = "visit_forward_rule|except-set-is-unguarded-names"
+    if exc is not None and "adapters::filter::Filter<" in exc and "ConfiguredVariable" in exc:
+        r.ok(key)
+    else:
+        r.violate(key, "the `except` set given to remove_used_configuration is not the filtered (unguarded) names of the with clause: %s" % (exc or "?")[:160], ruc[0].loc())
+    for c in cont:
+        st = source_type(c.args[0])
+        key = "visit_forward_rule|protected-set-is-all-configured-names"
+        if st is not None and "ConfiguredVariable" in st and "Filter<" not in st:
+            r.ok(key)
+        else:
+            r.violate(key, "the set of names kept for the final assert_configuration_is_empty is built with a filter (%s): `!default` entries of the with clause are removed before "
+                      "the check, so `@forward \"m\" with ($v: x !default)` for a $v that is not !default in m is silently accepted" % (st or "?")[:160], c.loc())
+    return r
+
+
+RULES = [rule_a, rule_b, rule_c, rule_d, rule_e, rule_f, rule_g, rule_h]
 
